@@ -311,8 +311,16 @@ def r18_2(prog, rep, builders, rid='R18.2'):
                 if isinstance(c.func, ast.Attribute) and \
                         c.func.attr == 'append' and c.args and \
                         c.args[0] is dct and id(c) in lmap:
-                    from ..flow import guards
-                    filtered = bool(guards(lg, lmap[id(c)].id))
+                    # an iteration of the loop which avoids the append
+                    from ..flow import loop_slice
+                    an = lmap[id(c)]
+                    if not an.loops:
+                        raise AnalysisError('UNRECOGNISED-IDIOM %s: append '
+                                            'outside of a loop' % f.where)
+                    head = an.loops[-1]
+                    start = loop_slice(lg, head)[0]
+                    filtered = start != an.id and head in lg.reachable(
+                        start, skip_nodes={an.id})
         rep.check(whole and not filtered, rid, f, 'one entry per element of '
                   'the parameter %r' % nodes_p,
                   construct='iter:%s%s' % (short(it), ':filtered' if filtered
